@@ -825,13 +825,20 @@ def run_c07(chk):
     for t_, ops_ in ecases:
         # splitting a text node that is not the last child, then querying at once
         ops_.insert(rng.randrange(len(ops_) + 1), "st:h%d:1" % rng.randint(1, 9))
+    # (directed: a NEW node appended to / inserted into the document element while comments and PIs follow it in the document -
+    # round-9 seed C07-M numbered such a node behind the epilog; its detection had depended on one random history)
+    EPI_ = "<r><a>1</a><b>2</b></r><!--tail--><?pi x?>"      # h0 document, h1 r, h2 a, h3 `1`, h4 b, h5 `2`, h6 comment, h7 PI; h8 = the new node
+    for mk_ in ("ce:c", "ct:x", "cc:k", "cp:t:d"):
+        for put_ in (["ap:h1:h8"], ["ib:h1:h8:h4"], ["ap:h4:h8"], ["ap:h1:h8", "ap:h1:h2"], ["ib:h1:h8:-"]):
+            ecases.append((EPI_, [mk_] + put_))
+            ecases.append((EPI_, ["quiet", mk_] + put_ + ["loud"]))
     eimpl = lib.run_lines(lib.build_harness(), [lib.req("dom", t_, DC.battery("//node()[not(self::text())];(//*|//comment())[last()]"), *ops_)
                                                  for t_, ops_ in ecases], timeout=900, per_line_resume=True)
     for (t_, ops_), a in zip(ecases, eimpl):
         for i, x in enumerate(D.split_records(a)):
             chk.count(["edited", t_] + ops_[:i], nontrivial=i > 0 and x["status"].startswith("ok"))
             v, q = x["flags"].get("ord"), x["flags"].get("q")
-            if v is not None and v != "ok":
+            if v is not None and v not in ("ok", "skip"):
                 mfail.append((t_, "dom history: " + " ".join(ops_[:i]), "document-order keys of the edited document are not increasing "
                               "along the tree walk (node-sets come out of order or lose nodes)", v))
                 break
